@@ -137,7 +137,8 @@ def _c10_hist(h):
 
     def answers(S, probe):
         out = []
-        out.append(("area", IntegrateShape.area(S) if isinstance(S, DefinedShape) else None))
+        ar = IntegrateShape.area(S) if isinstance(S, DefinedShape) else None
+        out.append(("area", round(ar, 9) if isinstance(ar, float) else ar))  # (floats: last-bit noise of summation order)
         if isinstance(S, DefinedShape):
             out.append(("float", round(float(S), 9)))
             out.append(("lens", tuple(round(float(j), 9) for j in S.jordans)))
